@@ -491,6 +491,10 @@ cdef class Tokenizer(BaseTokenizer):
                 # If not, a Falsey filename means nothing is added to any
                 # KV exception message.
                 filename = None
+            else:
+                # Files opened from a descriptor (tempfile.TemporaryFile(), open(fd), pipes) have that int as their name.
+                if isinstance(filename, int):
+                    filename = None
 
         BaseTokenizer.__init__(self, filename, error)
         self.flags = flags
